@@ -38,11 +38,12 @@ def gen(args):
     wid, jobs, sd = args
     from harness import selectors as H
     out = []
-    for (vi, di, scheds) in jobs:
+    for job in jobs:
+        vi, di, scheds = job[:3]
+        N = job[3] if len(job) > 3 else 6
         name, extra, tag = VARIANTS[vi]
         cls, axis, family, needs_y = H.CLASSES[name]
-        rng = np.random.default_rng([sd, di, 808])
-        N = 6
+        rng = np.random.default_rng([sd, di, 808, N])
         # data with rank above the number of selections; a few tie-rich sets for the FPS family
         tie_rich = family == "fps" and di % 4 == 3
         while True:
@@ -105,7 +106,7 @@ def gen(args):
                     hist.append({"req": k, "raised": True, "st": {}, "msg": str(e)[:100]})
                     break
             c = dict(base)
-            c.update({"id": "v%d-d%d-s%s" % (vi, di, "".join(map(str, s))), "kind": "warm-chain", "history": hist, "sched": s})
+            c.update({"id": "v%d-d%d-n%d-s%s" % (vi, di, N, "-".join(map(str, s))), "kind": "warm-chain", "history": hist, "sched": s})
             out.append(c)
         # (2) restart: FPS initialised with the already selected prefix
         if name in ("fFPS", "sFPS"):
@@ -114,7 +115,7 @@ def gen(args):
                 for k in (k0, nmax):
                     o = fit_cold(k, initialize=pre)
                     c = dict(base)
-                    c.update({"id": "v%d-d%d-r%d-%d" % (vi, di, k0, k), "kind": "restart-from-prefix",
+                    c.update({"id": "v%d-d%d-n%d-r%d-%d" % (vi, di, N, k0, k), "kind": "restart-from-prefix",
                               "history": [{"req": k, "raised": False, "st": project(H, o, name, X, y, unit, exact, axis, family)}]})
                     out.append(c)
         # (3) warm start on a never fitted selector is rejected
@@ -127,7 +128,7 @@ def gen(args):
         except ValueError:
             acc = False
         c = dict(base)
-        c.update({"id": "v%d-d%d-unfitted" % (vi, di), "kind": "warm-unfitted", "history": [], "warm_unfitted_accepted": acc})
+        c.update({"id": "v%d-d%d-n%d-unfitted" % (vi, di, N), "kind": "warm-unfitted", "history": [], "warm_unfitted_accepted": acc})
         out.append(c)
     return out
 
@@ -150,6 +151,17 @@ def run(tier):
     rep.cov["exhaustive"] = True
     ndata = 2 if quick else 12
     jobs = [(vi, core.seed() * 100 + di, scheds) for vi in range(len(VARIANTS)) for di in range(ndata)]
+    # larger instances: schedules up to N = 12 sampled by TLC's simulation mode
+    r12 = core.run_tlc("Schedules.tla", cfg="mc/Schedules12.cfg", workers=1, simulate="num=%d" % (40 if quick else 400), depth=7,
+                       extra=["-seed", str(core.seed() + 1)])
+    if r12["error"]:
+        raise core.Machinery("Schedules12 simulation: " + r12["error"])
+    s12 = sorted({tuple(e["sched"]) for e in r12["records"] if e.get("k") == "S"})
+    rep.cov["parts"]["Schedules N=12 (tlc -simulate)"] = {"distinct_schedules": len(s12)}
+    for vi in range(len(VARIANTS)):
+        chunk = [list(x) for x in s12[vi::len(VARIANTS)]]
+        if chunk:
+            jobs.append((vi, core.seed() * 100 + 50 + vi, chunk, 12))
     parts = [(w, jobs[w::core.NCPU], core.seed()) for w in range(core.NCPU)]
     with mp.Pool(core.NCPU) as pool:
         cases = [c for part in pool.map(gen, parts) for c in part]
